@@ -36,7 +36,7 @@ impl PartialOrd for Side {
     fn partial_cmp(&self, other: &Self) -> Option<Ordering> {
         match (self, other) {
             (Side::Some(s), Side::Some(o)) => {
-                if !(s * o).is_positive() {
+                if *s == 0 || *o == 0 || s.is_positive() != o.is_positive() {
                     // We can't compare two sides with different sign
                     return None;
                 }
